@@ -661,6 +661,87 @@ def nodeIdNameSeg (name : Bytes) : Bytes :=
 def nodeIdPanics (name : Bytes) : Bool :=
   !isCharBoundary (nodeIdNameSeg name) Um.Gen.Hostile.NODE_ID_NAME_LEN
 
+/-! ### the routing key of every request: `get_hash_tag` (`src/common/utils.rs`)
+
+`Command::new` (in the session's poll loop, before any handler) computes `generate_slot(key)` for
+element 1 of *every* request (element 3 of EVAL / EVALSHA).  `get_hash_tag` ends in
+`key.get(a..b).expect("get_hash_tag")`: here the slice is explicit, `none` = the `expect` fires and
+the session task panics. -/
+
+def LBRACE : UInt8 := 123
+def RBRACE : UInt8 := 125
+
+/-- `key.get(a..b)` -/
+def sliceOpt (key : Bytes) (a b : Nat) : Option Bytes :=
+  if a ≤ b ∧ b ≤ key.length then some ((key.drop a).take (b - a)) else none
+
+/-- `get_hash_tag`; `afterBegin` = the closing brace is searched after the opening one (the code of the
+tree), otherwise anywhere in the key (the `memchr` shape) -/
+def hashTagChecked (afterBegin : Bool) (key : Bytes) : Option Bytes :=
+  match Um.Crc16.position LBRACE key with
+  | none => some key
+  | some begin =>
+    if afterBegin then
+      match Um.Crc16.position RBRACE (key.drop (begin + 1)) with
+      | none => some key
+      | some endOffset => if endOffset = 0 then some key else sliceOpt key (begin + 1) (begin + 1 + endOffset)
+    else
+      match Um.Crc16.position RBRACE key with
+      | none => some key
+      | some e => if e = begin + 1 then some key else sliceOpt key (begin + 1) e
+
+/-- the key `CommandInfo::new` hashes: element 3 for EVAL / EVALSHA, element 1 otherwise -/
+def routingKey (cmd : Cmd) : Option Bytes :=
+  let ty := dataCmdTypeOf (some cmd)
+  elem cmd (match Um.Gen.keyIndexTable.find? (fun p => p.1 = ty) with
+    | some p => p.2
+    | none => Um.Gen.keyIndexDefault)
+
+/-- does building the `Command` of this request panic? -/
+def commandNewPanics (afterBegin : Bool) (cmd : Option Cmd) : Bool :=
+  match cmd.bind routingKey with
+  | none => false
+  | some k => (hashTagChecked afterBegin k).isNone
+
+/-! ### `CONFIG SET` and the slow-log rate limiter (`src/proxy/service.rs`, `src/proxy/slowlog.rs`) -/
+
+/-- `str::parse::<i64>()` -/
+def parseI64Std (s : Bytes) : Option Int :=
+  match s with
+  | [] => none
+  | 43 :: rest => (btou i64Max rest).map Int.ofNat
+  | 45 :: rest => (btou i64NegMax rest).map fun n => - (Int.ofNat n)
+  | _ => (btou i64Max s).map Int.ofNat
+
+def asciiLower (b : UInt8) : UInt8 := if 65 ≤ b.toNat ∧ b.toNat ≤ 90 then b + 32 else b
+
+/-- the runtime configuration a client can write -/
+structure ConfStore where
+  sampleRate : Nat := 1000
+  slowerThan : Int := 50000
+  deriving Repr, DecidableEq
+
+/-- `ServerProxyConfig::set_value` over the generated arm table (`field.to_lowercase()`; the
+fields are ASCII): the new store and whether the answer is `+OK` -/
+def configSet (st : ConfStore) (field value : Bytes) : ConfStore × Bool :=
+  let f := String.ofList ((field.map asciiLower).map fun b => Char.ofNat b.toNat)
+  match Um.Gen.Hostile.configSetFields.find? (fun p => p.1 = f) with
+  | some (_, "u64") =>
+    match parseUsizeStd value with
+    | some n => (if f = "slowlog_sample_rate" then { st with sampleRate := n } else st, true)
+    | none => (st, false)
+  | some (_, "i64") =>
+    match parseI64Std value with
+    | some n => (if f = "slowlog_log_slower_than" then { st with slowerThan := n } else st, true)
+    | none => (st, false)
+  | _ => (st, false)
+
+/-- `SlowLogRateLimiter::check_current_enabled(rate)` at request number `count`: `none` = `% 0`
+(the session task panics at the top of `Session::handle_cmd`, for every session) -/
+def limiterDecision (clamped : Bool) (rate count : Nat) : Option Bool :=
+  let r := if clamped then max 1 rate else rate
+  if r = 0 then none else some (count % r == 0)
+
 /-! ### counted item loops of the UMCTL parsers
 
 `peer_num` of `UMCTL SETREPL` (two items per peer, a 48-byte `ReplPeer` each) and `ranges_num` of a
